@@ -53,6 +53,11 @@ class FnContract:
     note: str = ""
 
 
+class Refuted(Exception):
+    """raised by a case builder when the unit under contract visibly contradicts the contract before any symbolic
+    execution (e.g. a generated function does not accept a documented parameter)"""
+
+
 class Ctx:
     def __init__(self, I, inputs, kind, value, path):
         self.I, self.inputs, self.kind, self.value, self.path = I, inputs, kind, value, path
@@ -157,7 +162,10 @@ class EngineB:
         t0 = time.time()
         Z = Sorts.get()
         msrc, fn = source.func(c.qualname)
-        base_id = f"{prop_id}.B.{c.qualname.split(':')[1]}.{case.name}"
+        modname, fname = c.qualname.split(":")
+        if modname.startswith("pyvcfrag_"):
+            fname = modname.split(".")[-1] + "." + fname
+        base_id = f"{prop_id}.B.{fname}.{case.name}"
         obs = {}
         clause_list = list(case.clauses)
         raises_clause = Clause("no-exception-escapes", None, native="exc is not None and not isinstance(exc, ALLOWED)",
@@ -239,6 +247,15 @@ class EngineB:
                         continue
                     model = self._model_from(s.model(), inputs, Z)
                     failures[cl.name].append((f"clause false on a feasible path; model {model}", model, path))
+        except Refuted as e:
+            for name, ob in obs.items():
+                if name == "no-exception-escapes":
+                    ob.status = PROVED
+                    ob.detail = "not applicable: the unit contradicts the contract before execution (see sibling obligation)"
+                else:
+                    ob.status = REFUTED
+                    ob.detail = str(e)
+            return list(obs.values())
         except Unsupported as e:
             for ob in obs.values():
                 ob.status = UNDECIDED
